@@ -54,6 +54,7 @@ type oracles struct {
 	everCached map[string]bool // conv/stream had output at some step
 
 	attachedAfter map[int]map[string]bool // step -> converters attached to some tag after that step
+	secondLives   int
 	apiLogStart   int
 	apiLogLines   map[int]bool // lines of the converter invocation log written during API calls
 
